@@ -395,6 +395,8 @@ def run(res, rng, tier, known):
     cases = kernel_cases(rng, tier) + monitor_cases(rng, tier, stats)
     run_cases(res, cases, known)
     trace_cases(res, rng, tier)
+    import einsum2lean
+    einsum2lean.check(res, "C11")      # translator tie: the kernels' subscript strings, read from the current source, are the model kernels (Lean: rfl)
     trace_amen(res, rng, tier)
     if stats:
         res.extra["contract_monitor_runs"] = len(stats)
